@@ -282,6 +282,9 @@ func (r *run) act(a *arrival, c net.Conn, wmu *sync.Mutex, full []byte, cut int)
 }
 
 func upBody(tok string, idx int) string {
+	if strings.HasSuffix(tok, "e") { // scenario with empty replies (Scenario.EmptyReply): the token carries the mark
+		return ""
+	}
 	return fmt.Sprintf("up:%s:%d:", tok, idx) + strings.Repeat("x", 96)
 }
 
@@ -318,7 +321,15 @@ func (r *run) serveH1(host, conn int, c net.Conn) {
 		}
 		rb := upBody(tok, a.Idx)
 		head := fmt.Sprintf("HTTP/1.1 %d %s\r\nContent-Length: %d\r\n%s: %s\r\n%s: up\r\n%s: %d\r\n\r\n", status, http.StatusText(status), len(rb), mesh.TokenHeader, tok, originHeader, attemptHeader, a.Idx)
-		if r.act(a, c, &wmu, []byte(head+rb), len(head)+len(rb)/2) {
+		cut := len(head) + len(rb)/2
+		if len(rb) == 0 {
+			// a reply without a body, sent in chunked framing (the empty last chunk is all there is): complete only with
+			// the final CRLF, so a "partial" write ends inside it
+			head = fmt.Sprintf("HTTP/1.1 %d %s\r\nTransfer-Encoding: chunked\r\n%s: %s\r\n%s: up\r\n%s: %d\r\n\r\n", status, http.StatusText(status), mesh.TokenHeader, tok, originHeader, attemptHeader, a.Idx)
+			rb = "0\r\n\r\n"
+			cut = len(head) + 2
+		}
+		if r.act(a, c, &wmu, []byte(head+rb), cut) {
 			return
 		}
 	}
@@ -692,7 +703,11 @@ const (
 func runScenario(sc *Scenario) (res *result) {
 	startStallMonitor()
 	uniq := mesh.Uniq()
-	r := &run{sc: sc, tok: fmt.Sprintf("t%d", uniq), done: make(chan struct{}), poison: map[[2]int]bool{}, answered: make(chan struct{})}
+	emptyMark := ""
+	if sc.EmptyReply {
+		emptyMark = "e"
+	}
+	r := &run{sc: sc, tok: fmt.Sprintf("t%d%s", uniq, emptyMark), done: make(chan struct{}), poison: map[[2]int]bool{}, answered: make(chan struct{})}
 	res = &result{Token: r.tok}
 	var (
 		ups     []*upHost
